@@ -36,7 +36,7 @@ REQUIRED_CLASSES = {"all": ["ro_mutation_refused", "skel_read_refused", "local_u
 BUDGET_S = {"quick": 900, "thorough": 4 * 3600}
 FLAGS = ["read_only", "local_only", "skel_only"]
 STARTS = ["/", "/g", "/g/h", "/g/d2"]
-PRIMS = ["child0", "childN", "get0", "values0", "items0", "visit0", "reqgrp", "parent", "query0", "deep", "file",
+PRIMS = ["child0", "childN", "get0", "values0", "items0", "visit0", "reqgrp", "parent", "query0", "deep", "file", "dot",
          "child0+read_only", "childN+skel_only"]  # (the last two: a child that is restricted further before going on)
 
 
@@ -82,6 +82,10 @@ def navigate(node, prim):
             return node.parent
         if prim == "file":
             return node.file
+        if prim == "dot":  # "." names the group itself on h5py (IH5 refuses it)
+            if not isg:
+                raise NA()
+            return node["."]
         if prim == "query0":
             res = list(node.metador.query("verif.base"))
             if not res:
@@ -146,7 +150,9 @@ def mut_ops(node):
             ("nested_setitem", lambda: node.__setitem__("x/y/z", 1)),
         ]
     else:
-        ops += [("dataset.__setitem__", lambda: node.__setitem__((), node[()] if False else 5)),
+        ops += [("dataset.shape_assign", lambda: setattr(node, "shape", (2,))),
+                ("dataset.copy_into_patch", lambda: node.copy_into_patch()),
+                ("dataset.__setitem__", lambda: node.__setitem__((), node[()] if False else 5)),
                 ("dataset.write_direct", lambda: node.write_direct(np.zeros(node.shape)) if hasattr(node.__wrapped__, "write_direct") else (_ for _ in ()).throw(AttributeError())),
                 ("dataset.resize", lambda: node.resize((5,)) if hasattr(node.__wrapped__, "resize") else (_ for _ in ()).throw(AttributeError()))]
     return ops
@@ -172,7 +178,8 @@ def read_ops(node):
     if not isg:
         ops += [("dataset.__getitem__", lambda: node[()]), ("dataset.get_slice", lambda: node[...])]
         if getattr(node, "shape", ()) != ():  # contents through the sequence / array protocols
-            ops += [("dataset.__iter__", lambda: list(node)), ("dataset.__contains__", lambda: 2 in node),
+            ops += [("dataset.__bytes__", lambda: bytes(node)), ("dataset.__reversed__", lambda: list(reversed(node))),
+                    ("dataset.__iter__", lambda: list(node)), ("dataset.__contains__", lambda: 2 in node),
                     ("dataset.sum", lambda: sum(node)), ("dataset.np_array", lambda: np.array(node))]
     return ops
 
@@ -429,7 +436,8 @@ def _run_control(driver, rec):
                     for prim in chain:
                         node = navigate(node, prim)
                     fn = dict(mut_ops(node))[name]
-                    expect_ok = not (name in ("attrs.create", "attrs.modify", "dataset.write_direct", "dataset.resize") or
+                    expect_ok = not (name in ("attrs.create", "attrs.modify", "dataset.write_direct", "dataset.resize",
+                                              "dataset.shape_assign", "dataset.copy_into_patch") or
                                      (name in ("__delitem__", "move", "copy", "copy_nometa") and len(node) == 0) or
                                      (name == "meta.__delitem__" and len(node.meta.keys()) == 0) or
                                      (name.startswith("meta.values.") or name.startswith("meta.items.")) and len(node.meta.keys()) == 0 or
